@@ -860,6 +860,20 @@ func main() {
 	w("Definition msg_gate_ok : bool := %v.\nDefinition msg_gate_perm : string := \"%s\"%%string.\n", gateOK, gatePerm)
 	w("(* does the message handler guard the unique-keys list like SetNetworkProperty does *)\nDefinition msg_unique_guard : bool := %v.\n\n", uniqueGuard)
 
+	// ---- genesis import: what happens with the error of SetNetworkProperties
+	genShape := "not found"
+	if gf := parseFile(*repo + "/x/gov/genesis.go"); gf != nil {
+		if fd := findFunc(gf, "InitGenesis"); fd != nil {
+			for i, st := range fd.Body.List {
+				if normalize(src(st)) == "err := k.SetNetworkProperties(ctx, genesisState.NetworkProperties)" && i+1 < len(fd.Body.List) {
+					genShape = normalize(src(fd.Body.List[i+1]))
+				}
+			}
+		}
+	}
+	w("(* gov InitGenesis: the statement following `err := k.SetNetworkProperties(...)` *)\n")
+	w("Definition genesis_error_handling : string := \"%s\"%%string.\n\n", strings.ReplaceAll(genShape, "\"", "'"))
+
 	w("Definition gen_errors : list string := [")
 	for i, e := range genErrors {
 		if i > 0 {
